@@ -94,9 +94,33 @@ fn main() {
   // panics inside the implementation are observations, not crashes of the harness
   // (VHARNESS_PANICS=1 keeps the default hook, for debugging the harness itself)
   if std::env::var("VHARNESS_PANICS").is_err() {
-    std::panic::set_hook(Box::new(|_| {}));
+    std::panic::set_hook(Box::new(|info| util::note_panic(info.to_string())));
   }
-  let rep = match cfg.property.as_str() {
+  // a call of the implementation that does not return within the limit ends the run with exit code 97
+  // (`check` reports it as a violation, with the last input noted); the limit is far above any silent
+  // stretch of a run on the unchanged tree
+  let limit = std::env::var("VHARNESS_HANG_S").ok().and_then(|s| s.parse().ok()).unwrap_or(if cfg.tier == "thorough" { 7200 } else { 1200 });
+  util::start_watchdog(limit);
+  let rep = match std::panic::catch_unwind(std::panic::AssertUnwindSafe(|| run_property(&cfg))) {
+    Ok(rep) => rep,
+    Err(_) => {
+      // the harness itself gave up: an assumption about the implementation that always holds on the
+      // unchanged tree (a fixture builds, the base scope evaluates, the model driver answers) failed
+      eprintln!("HARNESS-PANIC {}", util::last_panic());
+      std::process::exit(98);
+    }
+  };
+  let text = serde_json::to_string_pretty(&rep.to_json()).unwrap();
+  if cfg.report.is_empty() {
+    println!("{}", text);
+  } else {
+    std::fs::write(&cfg.report, text).expect("write report");
+  }
+}
+
+fn run_property(cfg: &Cfg) -> report::Report {
+  let cfg = cfg;
+  match cfg.property.as_str() {
     "C01" => c01::run(&cfg),
     "C02" => c02::run(&cfg),
     "C03" => c03::run(&cfg),
@@ -121,12 +145,6 @@ fn main() {
       eprintln!("unknown property {}", p);
       std::process::exit(2);
     }
-  };
-  let text = serde_json::to_string_pretty(&rep.to_json()).unwrap();
-  if cfg.report.is_empty() {
-    println!("{}", text);
-  } else {
-    std::fs::write(&cfg.report, text).expect("write report");
   }
 }
 
